@@ -584,6 +584,12 @@ func (a *Agent) handleUDPOpenAck(peerID identity.AgentID, frame *protocol.Frame)
 
 	// Compute session key from the ephemeral keys
 	var zeroKey [protocol.EphemeralKeySize]byte
+	if ack.EphemeralPubKey == zeroKey {
+		// Every UDP_OPEN we send offers a key. An acknowledgement without one
+		// would silently downgrade the association to plaintext, so refuse it.
+		dest.closePendingOpen(errors.New("UDP open refused: acknowledgement carries no encryption key"))
+		return
+	}
 	if ack.EphemeralPubKey != zeroKey {
 		// Compute shared secret using our private key and remote public key
 		sharedSecret, err := crypto.ComputeECDH(dest.EphemeralPrivKey, ack.EphemeralPubKey)
